@@ -701,9 +701,11 @@ func (m *MapPollard) placeEmptyRoot(prevRootPos uint64) error {
 				m.Nodes.Delete(curPos)
 
 				_, cached := m.CachedLeaves.Get(v.Hash)
+				if cached {
+					m.CachedLeaves.Put(v.Hash, pos)
+				}
 				if cached || m.Full {
 					v.Remember = true
-					m.CachedLeaves.Put(v.Hash, pos)
 				}
 				m.Nodes.Put(pos, v)
 			}
@@ -747,8 +749,10 @@ func (m *MapPollard) undoDeletion(proof Proof, hashes []Hash) error {
 		v, found := m.Nodes.Get(sib)
 		if found {
 			_, cached := m.CachedLeaves.Get(v.Hash)
-			if cached || m.Full {
+			if cached {
 				m.CachedLeaves.Put(v.Hash, prevPos)
+			}
+			if cached || m.Full {
 				v.Remember = true
 			}
 
